@@ -1,6 +1,6 @@
 (* Statement pins for area `metadata`: every property theorem checked against its full
    statement written out. *)
-From FlacMeta Require Import Bytes Blocks BlockList Cue Accessors Sniff Blocks_proofs Blocks_level BlockList_proofs CueRender Props_C11 Props_C12 Props_C20.
+From FlacMeta Require Import Bytes Blocks BlockList Cue Accessors Sniff Blocks_proofs Blocks_level BlockList_proofs CueRender Cue_proofs2 Props_C11 Props_C12 Props_C20.
 Open Scope N_scope.
 
 Check (C11_block_write_read : forall (u : list N -> bool), (forall s, Forall (fun b => b < 128) s -> u s = true) ->
@@ -55,3 +55,17 @@ Check (C20_import : forall (p : profile) st c total text,
   exists b, block_of c total = Some b /\ cue_parse p total text = Ok b).
 Check (C20_offset_from_str : forall st i, wf_index i -> ci_mm i < 100000000000000000000 ->
   cdda_offset_from_str (time_text st i) = Some ((ci_ff i + 75 * ci_ss i + 4500 * ci_mm i) * 588)).
+Check (C20_ranges : forall c total b, wf_cue c -> block_of c total = Some b ->
+  track_sample_ranges b = pair_up (map index01_samples (cu_tracks c) ++ [total])).
+Check (C20_render_matches : forall st c decos, wf_style st -> wf_cue c ->
+  length decos = length (cue_lines st c) -> Forall wf_deco decos ->
+  cue_text_matches st c (render decos (cue_lines st c)) = true).
+Check (C20_import_rendered : forall (p : profile) st c decos total, wf_style st -> wf_cue c ->
+  length decos = length (cue_lines st c) -> Forall wf_deco decos ->
+  total mod 588 = 0 -> before_end c total ->
+  exists b, block_of c total = Some b /\ cue_parse p total (render decos (cue_lines st c)) = Ok b /\
+            track_sample_ranges b = pair_up (map index01_samples (cu_tracks c) ++ [total])).
+Check (C20_export_import : forall (p : profile) c total b fname,
+  wf_cue c -> total mod 588 = 0 -> before_end c total -> block_of c total = Some b -> no_nl fname ->
+  exists b', cue_parse p total (display b fname) = Ok b' /\ layout b' = layout b /\
+             track_sample_ranges b' = track_sample_ranges b).
